@@ -1192,6 +1192,15 @@ impl Worker {
 
 fn child_main() {
     hcommon::quiet_panics();
+    // Exit when the parent goes away (e.g. killed on a timeout while this process spins inside
+    // the code under test), so no orphan keeps a core busy.
+    let parent = std::os::unix::process::parent_id();
+    std::thread::spawn(move || loop {
+        std::thread::sleep(std::time::Duration::from_millis(500));
+        if std::os::unix::process::parent_id() != parent {
+            std::process::exit(3);
+        }
+    });
     let stdin = std::io::stdin();
     let stdout = std::io::stdout();
     for line in stdin.lock().lines() {
